@@ -7,7 +7,8 @@ package main
 //	base=<hex> hdr=<nil|-|Khex~vhex,vhex+…> ctor=<Get|Delete|PostJSONBody|…|Do|DoBody|DoMP> m=<hex> ct=<hex> tmpl=<hex>: op ; op ; …
 //	ops:  call <params> <body>       params: nil | - | khex=s<vhex>,khex=i<int>    body: nil | j<ahex>:<n> | f- | f<khex>=<vhex>,…
 //	                                 (further value kinds: l<int> int64, b<0|1> bool, t<vhex> defined string type, g<vhex> fmt.Stringer)
-//	      eval <io index> <fault> <resp>     fault: none|ser|tx|read|dec|dect      resp: ok<vhex>:<k>[:<status>] | bad[:<status>] | empty[:<status>] (no body at all)
+//	      eval <io index> <fault> <resp>     fault: none|ser|tx[kind]|read|readmid|dec|dect
+//	                                          resp: <body>[@<status>], body = ok<vhex>:<k> | big<k> | empty | ws | null | obj0 | garbage | arr | bad
 //	                                          (<status> = HTTP status of the stub's response, 200 if absent; the property decodes
 //	                                          the body whatever the status is)
 //	      mut (add a header to the request that was sent last) | dh (print DefaultHeader) | sent (transport calls so far)
@@ -19,6 +20,7 @@ package main
 
 import (
 	"bytes"
+	"context"
 	"encoding/hex"
 	"encoding/json"
 	"errors"
@@ -27,11 +29,14 @@ import (
 	"math/rand"
 	"mime"
 	"mime/multipart"
+	"net"
 	"net/http"
 	"net/url"
+	"os"
 	"sort"
 	"strconv"
 	"strings"
+	"syscall"
 	"time"
 
 	fpgo "github.com/TeaEntityLab/fpGo/v2"
@@ -45,6 +50,39 @@ type c17Body struct {
 type c17Target struct {
 	V string
 	K int
+}
+
+// c17NetErr is a net.Error-style failure (Temporary()/Timeout()), as a dial timeout or a reset connection reports itself.
+type c17NetErr struct {
+	msg           string
+	temp, timeout bool
+}
+
+func (e *c17NetErr) Error() string   { return e.msg }
+func (e *c17NetErr) Temporary() bool { return e.temp }
+func (e *c17NetErr) Timeout() bool   { return e.timeout }
+
+var c17ErrKinds = []string{"plain", "temp", "timeout", "wrap", "dl", "reset", "etimedout", "url"}
+
+// c17MakeErr builds a fresh error of the given kind; errors.Is(x, result) identifies it through any wrapping.
+func c17MakeErr(kind, who string) error {
+	switch kind {
+	case "temp":
+		return &c17NetErr{who + ": temporary failure", true, false}
+	case "timeout":
+		return &c17NetErr{who + ": i/o timeout", true, true}
+	case "wrap":
+		return fmt.Errorf("%s: wrapped: %w", who, &c17NetErr{"connection reset", true, false})
+	case "dl":
+		return fmt.Errorf("%s: %w", who, context.DeadlineExceeded)
+	case "reset":
+		return &net.OpError{Op: "read", Net: "tcp", Err: os.NewSyscallError("read", syscall.ECONNRESET)}
+	case "etimedout":
+		return &net.OpError{Op: "dial", Net: "tcp", Err: os.NewSyscallError("connect", syscall.ETIMEDOUT)}
+	case "url":
+		return &url.Error{Op: "Get", URL: "http://stub.test/", Err: &c17NetErr{who + ": temporary failure", true, true}}
+	}
+	return errors.New(who + ": injected failure")
 }
 
 var (
@@ -64,9 +102,36 @@ type c17FailReader struct{}
 
 func (c17FailReader) Read([]byte) (int, error) { return 0, c17ErrRead }
 
+// c17SlowReader hands out one byte per Read; with failAfter >= 0 it fails after that many bytes.
+type c17SlowReader struct {
+	data      []byte
+	failAfter int
+	ctx       context.Context // like a real connection, the body cannot be read once the request's context is cancelled
+	n         int
+}
+
+func (r *c17SlowReader) Read(p []byte) (int, error) {
+	if r.ctx != nil && r.ctx.Err() != nil {
+		return 0, r.ctx.Err()
+	}
+	if r.failAfter >= 0 && r.n >= r.failAfter {
+		return 0, c17ErrRead
+	}
+	if r.n >= len(r.data) {
+		return 0, io.EOF
+	}
+	if len(p) == 0 {
+		return 0, nil
+	}
+	p[0] = r.data[r.n]
+	r.n++
+	return 1, nil
+}
+
 type c17Stub struct {
 	fault string
 	resp  string
+	txErr error
 	recs  []string
 	last  *http.Request
 }
@@ -155,49 +220,64 @@ func c17BodyRecord(r *http.Request) string {
 func (s *c17Stub) RoundTrip(r *http.Request) (*http.Response, error) {
 	s.last = r
 	s.recs = append(s.recs, "["+hx(r.Method)+" "+hx(c17RawURL(r.URL))+" "+c17Header(r.Header)+" "+c17BodyRecord(r)+"]")
-	if s.fault == "tx" {
-		return nil, c17ErrTx
+	if strings.HasPrefix(s.fault, "tx") {
+		s.txErr = c17MakeErr(strings.TrimPrefix(s.fault, "tx"), "transport")
+		return nil, s.txErr
 	}
-	var body io.Reader
+	spec, statusStr, _ := strings.Cut(s.resp, "@")
+	status := 200
+	if n, err := strconv.Atoi(statusStr); err == nil {
+		status = n
+	}
+	var data []byte
 	switch {
-	case s.fault == "read":
-		body = c17FailReader{}
-	case strings.HasPrefix(s.resp, "ok"):
-		parts := strings.SplitN(s.resp[2:], ":", 3)
+	case strings.HasPrefix(spec, "big"):
+		k, _ := strconv.Atoi(spec[3:])
+		data, _ = json.Marshal(c17Target{V: strings.Repeat("a", 5000), K: k})
+	case strings.HasPrefix(spec, "ok"):
+		parts := strings.SplitN(spec[2:], ":", 2)
 		k := 0
 		if len(parts) >= 2 {
 			k, _ = strconv.Atoi(parts[1])
 		}
-		b, _ := json.Marshal(c17Target{V: unhx(parts[0]), K: k})
-		body = bytes.NewReader(b)
-	case strings.HasPrefix(s.resp, "empty"):
-		// a response without any body: still handed to the deserializer (which fails on it, as on `bad`)
-		body = strings.NewReader("")
-	default:
-		body = strings.NewReader("{")
+		data, _ = json.Marshal(c17Target{V: unhx(parts[0]), K: k})
+	case spec == "empty":
+		data = []byte{}
+	case spec == "ws":
+		data = []byte(" \n\t ")
+	case spec == "null":
+		data = []byte("null")
+	case spec == "obj0":
+		data = []byte(" {} ")
+	case spec == "garbage":
+		data = []byte("xyz{")
+	case spec == "arr":
+		data = []byte("[1]")
+	default: // bad: truncated JSON
+		data = []byte("{")
 	}
-	status := c17RespStatus(s.resp)
+	var body io.Reader = &c17SlowReader{data: data, failAfter: -1, ctx: r.Context()}
+	if len(data) > 1000 {
+		body = bytes.NewReader(data) // (big bodies in one piece: keeps the case fast)
+	}
+	switch s.fault {
+	case "read":
+		body = c17FailReader{}
+	case "readmid":
+		body = &c17SlowReader{data: append(data, "{\"V\":"...), failAfter: 3}
+	}
+	hdr := http.Header{}
+	contentLength := int64(-1)
+	if status != 200 {
+		contentLength = int64(len(data))
+		hdr.Set("Content-Length", strconv.Itoa(len(data)))
+		hdr.Set("Content-Type", "text/html; charset=utf-8")
+		hdr.Set("Retry-After", "1")
+		hdr.Set("X-Resp", strconv.Itoa(status))
+	}
 	return &http.Response{StatusCode: status, Status: strconv.Itoa(status) + " " + http.StatusText(status), Proto: "HTTP/1.1", ProtoMajor: 1, ProtoMinor: 1,
-		Header: http.Header{}, Body: io.NopCloser(body), Request: r, ContentLength: -1}, nil
+		Header: hdr, Body: io.NopCloser(body), Request: r, ContentLength: contentLength}, nil
 }
-
-// the HTTP status the stub answers with: last ":"-field of `ok<vhex>:<k>:<status>` / `bad:<status>`, 200 by default
-func c17RespStatus(resp string) int {
-	fs := strings.Split(resp, ":")
-	want := 2
-	if strings.HasPrefix(resp, "ok") {
-		want = 3
-	}
-	if len(fs) == want {
-		if st, err := strconv.Atoi(fs[want-1]); err == nil && st >= 200 && st <= 599 {
-			return st
-		}
-	}
-	return 200
-}
-
-// statuses without redirect semantics in net/http's client (3xx is left out: Client.Do would look for a Location)
-var c17Statuses = []int{200, 201, 202, 204, 400, 401, 404, 409, 500, 503}
 
 func c17ParseHeader(s string) http.Header {
 	if s == "nil" {
@@ -256,7 +336,7 @@ func c17ParseParams(s string) network.PathParam {
 	return p
 }
 
-func c17ErrClass(err error) string {
+func c17ErrClass(err error, txErr error) string {
 	var ue *url.Error
 	var se *json.SyntaxError
 	var ute *json.UnmarshalTypeError
@@ -265,7 +345,7 @@ func c17ErrClass(err error) string {
 		return "nil"
 	case errors.Is(err, c17ErrSer):
 		return "ser"
-	case errors.Is(err, c17ErrTx):
+	case errors.Is(err, c17ErrTx), txErr != nil && errors.Is(err, txErr):
 		return "tx"
 	case errors.Is(err, c17ErrRead):
 		return "read"
@@ -396,7 +476,7 @@ func c17Run(line string) string {
 			if idx < 0 || idx >= len(ios) {
 				return "noio"
 			}
-			stub.fault, stub.resp = f[2], f[3]
+			stub.fault, stub.resp, stub.txErr = f[2], f[3], nil
 			before := len(stub.recs)
 			resp := ios[idx].Eval()
 			news := stub.recs[before:]
@@ -408,7 +488,7 @@ func c17Run(line string) string {
 			if resp.TargetObject != nil {
 				tgt = hx(resp.TargetObject.V) + ":" + strconv.Itoa(resp.TargetObject.K)
 			}
-			return out + "err=" + c17ErrClass(resp.Err) + " tgt=" + tgt
+			return out + "err=" + c17ErrClass(resp.Err, stub.txErr) + " tgt=" + tgt
 		case len(f) == 1 && f[0] == "mut":
 			if stub.last == nil {
 				return "nomut"
@@ -437,7 +517,9 @@ func c17Run(line string) string {
 
 var c17Ctors = []string{"Get", "Delete", "PostJSONBody", "PutJSONBody", "PatchJSONBody", "PostMultipartBody", "PutMultipartBody",
 	"PatchMultipartBody", "Do", "DoBody", "DoMP"}
-var c17Faults = []string{"none", "ser", "tx", "read", "dec", "dect"}
+var c17Faults = []string{"none", "ser", "tx", "read", "dec", "dect", "txtemp", "txtimeout", "txwrap", "txdl", "txreset", "txetimedout", "txurl", "readmid"}
+var c17RespKinds = []string{"empty", "ws", "null", "obj0", "garbage", "arr", "bad"}
+var c17Statuses = []string{"", "", "@200", "@201", "@204", "@304", "@400", "@401", "@404", "@429", "@500", "@503"}
 var c17Bases = []string{"http://stub.test", "http://stub.test/api", "http://stub.test:8080/v1/"}
 var c17Headers = []string{"nil", "-", hx("X-A") + "~" + hx("1"), hx("X-A") + "~" + hx("1") + "," + hx("2") + "+" + hx("Authorization") + "~" + hx("Bearer t0k"),
 	hx("Content-Type") + "~" + hx("text/plain"), hx("Accept") + "~" + hx("*/*") + "+" + hx("X-B") + "~" + hx("")}
@@ -546,15 +628,12 @@ func c17GenBody(rng *rand.Rand, kind int) string {
 }
 
 func c17GenResp(rng *rand.Rand) string {
-	st := ""
-	if rng.Intn(2) == 0 {
-		st = ":" + strconv.Itoa(c17Statuses[rng.Intn(len(c17Statuses))])
+	st := c17Statuses[rng.Intn(len(c17Statuses))]
+	if rng.Intn(60) == 0 {
+		return "big" + strconv.Itoa(rng.Intn(9)) + st
 	}
-	switch rng.Intn(12) {
-	case 0:
-		return "bad" + st
-	case 1:
-		return "empty" + st
+	if rng.Intn(3) == 0 {
+		return c17RespKinds[rng.Intn(len(c17RespKinds))] + st
 	}
 	return "ok" + hx(c17Words[rng.Intn(len(c17Words))]) + ":" + strconv.Itoa(rng.Intn(100)-10) + st
 }
@@ -578,7 +657,7 @@ func c17Gen(tier string, rng *rand.Rand, emit func(string)) map[string]interface
 	// 1. bounded-exhaustive: every constructor x every fault x 0/1/2 evaluations x header variants, fixed 2-placeholder template
 	for _, ctor := range c17Ctors {
 		for _, f := range []string{"none", "dec", "dect"} {
-			for _, st := range []string{"", ":204", ":200", ":500"} {
+			for _, st := range []string{"", "@204", "@200", "@500"} {
 				body := "nil"
 				if c17Kind(ctor) == 1 {
 					body = "j" + hx("a") + ":1"
@@ -608,7 +687,7 @@ func c17Gen(tier string, rng *rand.Rand, emit func(string)) map[string]interface
 						for e := 0; e < evals; e++ {
 							st := ""
 							if (hi+e)%2 == 1 {
-								st = ":" + strconv.Itoa(c17Statuses[(exhaustive+e)%len(c17Statuses)])
+								st = c17Statuses[(exhaustive+e)%len(c17Statuses)]
 							}
 							ops = append(ops, "eval 0 "+f+" ok"+hx("r")+":"+strconv.Itoa(e)+st, "sent")
 						}
@@ -616,6 +695,25 @@ func c17Gen(tier string, rng *rand.Rand, emit func(string)) map[string]interface
 						emit(c17Head(c17Bases[hi%len(c17Bases)], hdr, ctor, m, c17CTypes[hi%len(c17CTypes)], "users/{id}/n/{name}") + strings.Join(ops, " ; "))
 						exhaustive++
 					}
+				}
+			}
+		}
+	}
+	// 1b. bounded-exhaustive: every constructor x every response-body kind (zero bytes, whitespace, null, {}, garbage, wrong type,
+	// truncated, valid) x status codes x decoder behaviour (real / injected error / wrong type), evaluated twice
+	for _, ctor := range c17Ctors {
+		for _, rk := range append([]string{"ok" + hx("v") + ":5", "big7"}, c17RespKinds...) {
+			for _, st := range []string{"", "@204", "@304", "@404", "@503"} {
+				for _, f := range []string{"none", "dec", "dect"} {
+					body := "nil"
+					if c17Kind(ctor) == 1 {
+						body = "j" + hx("b") + ":1"
+					} else if c17Kind(ctor) == 2 {
+						body = "f" + hx("f") + "=" + hx("v")
+					}
+					emit(c17Head(c17Bases[0], "nil", ctor, "GET", "application/json", "x/{id}") + "call " + hx("id") + "=i1 " + body +
+						" ; eval 0 none ok" + hx("first") + ":1 ; eval 0 " + f + " " + rk + st + " ; sent")
+					exhaustive++
 				}
 			}
 		}
@@ -674,7 +772,7 @@ func c17Gen(tier string, rng *rand.Rand, emit func(string)) map[string]interface
 		count("ctor." + ctor)
 		emit(c17Head(c17Bases[rng.Intn(len(c17Bases))], c17Headers[rng.Intn(len(c17Headers))], ctor, m, ct, tmpl) + strings.Join(ops, " ; "))
 	}
-	return map[string]interface{}{"exhaustive": false, "exhaustive_scope": "11 constructors x 6 fault stages x 0..2 evaluations x 6 default headers x body/nil body",
+	return map[string]interface{}{"exhaustive": false, "exhaustive_scope": "11 constructors x 14 faults (serializer, 8 transport error kinds incl. net.Error Temporary/Timeout, read at once / mid-body, decoder) x 0..2 evaluations x 6 default headers x body/nil body; 11 constructors x 9 response-body kinds (incl. a 5 kB one) x 5 status codes x 3 decoder behaviours",
 		"exhaustive_cases": exhaustive, "random_cases": nRandom, "random_distribution": stats,
 		"value_alphabet": fmt.Sprintf("%d values incl. URL-tricky ones, %d keys, %d literal chunks, 0..4 placeholders", len(c17Vals), len(c17Keys), len(c17Lits))}
 }
